@@ -27,6 +27,7 @@ func TestC08(t *testing.T) {
 		s  *w.State
 	}
 	var held []start
+	perSc := map[string]int{} // closure starts kept per scenario
 	k := 0
 	runWorld(t, run, scs, []func(*w.MonCtx){w.MonC08, w.MonC14Status, w.MonC05}, 0, func(sc *w.Scenario, s *w.State, d int) {
 		e := s.EDS("ns", "foo")
@@ -36,7 +37,8 @@ func TestC08(t *testing.T) {
 		if w.AnnotTrue(e, "rolling-update-paused") || w.AnnotTrue(e, "rollout-frozen") || w.AnnotTrue(e, "canary-paused") {
 			k++
 			if h.Thorough() || k%5 == 0 {
-				if len(held) < 100000 {
+				if perSc[sc.Name] < 35000 {
+					perSc[sc.Name]++
 					held = append(held, start{sc, s})
 				} else {
 					run.Count("held_states_not_kept", 1)
@@ -84,7 +86,7 @@ func TestC08(t *testing.T) {
 	})
 	requireAntecedents(run, "C08/resume-closure", "C08/paused-closure")
 	if n := run.Counter("held_states_not_kept"); n > 0 {
-		run.NotExhaustive(fmt.Sprintf("%d states beyond the first 100000 were not used as closure starts", n))
+		run.NotExhaustive(fmt.Sprintf("%d states beyond the first 35000 of a scenario were not used as closure starts", n))
 	}
 	exit(run.Finish(fmt.Sprintf("BFS of rolling-update and canary scenarios with every toggling order of the paused / frozen / canary-paused / canary-unpaused annotations (and kubectl-eds pause/unpause/validate) up to the budget, all interleavings; monitors: nothing withheld is done (C08), status.state (C14 status function), no promotion while paused (C05); closures from %d held states for 'still creates' and 'resumes'; non-trivial = scenarios", len(held))))
 }
